@@ -52,6 +52,8 @@ pub enum TriviaPiece {
     LineComment(Comment),
     /// A block comment starting with a '/*' and ending with a '*/'
     BlockComment(Comment),
+    /// A block comment starting with a '/*' that reaches the end of the input without a '*/'
+    UnterminatedBlockComment(Comment),
     /// Space ' ' characters
     Spaces(usize),
     /// Non breaking space characters
@@ -66,7 +68,7 @@ impl TriviaPiece {
             HorizontalTabs(n) | VerticalTabs(n) | CarriageReturns(n) | LineFeeds(n)
             | FormFeeds(n) | Spaces(n) | NonBreakingSpaces(n) => *n,
             CarriageReturnLineFeeds(n) => *n * 2,
-            LineComment(str) => 2 + str.byte_len(),
+            LineComment(str) | UnterminatedBlockComment(str) => 2 + str.byte_len(),
             BlockComment(str) => 4 + str.byte_len(),
         }
     }
@@ -98,7 +100,10 @@ impl TriviaPiece {
     /// Returns if this trivia piece is a block or line comment.
     pub fn is_comment(&self) -> bool {
         use TriviaPiece::*;
-        matches!(self, BlockComment(_) | LineComment(_))
+        matches!(
+            self,
+            BlockComment(_) | UnterminatedBlockComment(_) | LineComment(_)
+        )
     }
 
     pub fn write_to(&self, writer: &mut impl Write) -> io::Result<()> {
@@ -124,6 +129,10 @@ impl TriviaPiece {
                 writer.write_all(b"/*")?;
                 writer.write_all(comment.as_bytes())?;
                 writer.write_all(b"*/")
+            }
+            UnterminatedBlockComment(comment) => {
+                writer.write_all(b"/*")?;
+                writer.write_all(comment.as_bytes())
             }
             Spaces(n) => write_repeated(writer, b" ", *n),
             NonBreakingSpaces(n) => write_repeated(writer, &[0xA0u8], *n),
